@@ -31,5 +31,7 @@ want BB4 && { run BB4/r1.diff C01 C09 C07 C03; run BB4/r2.diff C09 C01; run BB4/
 want BC1 && { run BC1/r1.diff C02 C01; run BC1/r2.diff C10 C03; run BC1/r3.diff C03 C02 C10; }
 want BC2 && { run BC2/r1.diff C07; run BC2/r2.diff C15 C08; run BC2/r3.diff C16; }
 want BC3 && { run BC3/r1.diff C10 C13 C12; run BC3/r2.diff C19; run BC3/r3.diff C20 C13; }
+want BD1 && { run BD1/r1.diff C06 C14; run BD1/r2.diff C19 C14; run BD1/r3.diff C14 C02; run BD1/r4.diff C05 C06 C12 C14; }
+want BD2 && { run BD2/r1.diff C19 C14; run BD2/r2.diff C05 C06 C12 C14; run BD2/r3.diff C06 C05 C14; run BD2/r4.diff C11 C14; }
 git -C $R status --short
 echo BENIGN-DONE
